@@ -122,6 +122,35 @@ func solveOnce(vc *VC, o *Obligation, dir string, idx int, timeoutS, seed int, n
 	defer os.Remove(file)
 	ctx, cancel := context.WithCancel(context.Background())
 	defer cancel()
+	// stage 1: one fast solver alone with a short limit (most obligations are decided in well under a second)
+	if only == "" && needAgree <= 1 {
+		quickT := 3
+		if timeoutS < quickT {
+			quickT = timeoutS
+		}
+		a := runSolver(ctx, solvers[0], file, quickT, seed)
+		res.AllOut[a.solver] = a.ans
+		if a.ans == "unsat" {
+			res.Solver, res.Output, res.TimeS = a.solver, a.out, a.t
+			if o.Cover {
+				res.Status = "cover-vacuous"
+			} else {
+				res.Status = "discharged"
+			}
+			res.Agree = []string{a.solver}
+			return res
+		}
+		if a.ans == "sat" {
+			res.Solver, res.Output, res.TimeS = a.solver, a.out, a.t
+			res.Model = parseModel(o, a.out)
+			if o.Cover {
+				res.Status = "cover-ok"
+			} else {
+				res.Status = "failed-sat"
+			}
+			return res
+		}
+	}
 	ch := make(chan solverAnswer, len(solvers))
 	n := 0
 	for _, sp := range solvers {
@@ -244,7 +273,11 @@ type job struct {
 }
 
 func solveAll(jobs []job, timeoutFor func(*Obligation) int, seed int, needAgree int, workers int) []*SolveResult {
-	dir, err := os.MkdirTemp("", "hv-smt-")
+	base := ""
+	if fi, e := os.Stat("/dev/shm"); e == nil && fi.IsDir() {
+		base = "/dev/shm"
+	}
+	dir, err := os.MkdirTemp(base, "hv-smt-")
 	if err != nil {
 		panic(err)
 	}
